@@ -36,6 +36,8 @@ MAG = {
     "huge": st.one_of(st.integers(2**53 - 4, 2**53 - 1), st.integers(-2**53 + 1, -2**53 + 4), gen.small_int_costs),
     "posinf": st.one_of(st.just("inf"), st.just("inf"), gen.small_int_costs),
     "neginf": st.one_of(st.just("-inf"), st.just("-inf"), gen.small_int_costs),
+    # two possible costs only: several values share the optimum in nearly every case
+    "tie": st.integers(0, 1),
 }
 
 
@@ -48,7 +50,8 @@ def helper_cases(draw):
     x = names[0]
     domains, variables = {}, []
     for i, nm in enumerate(names):
-        pool = [d for d in gen.INT_DOMS + gen.STR_DOMS]
+        # the mixed-type domains get extra weight: tied values that cannot be ordered among themselves
+        pool = [d for d in gen.INT_DOMS + gen.STR_DOMS] + [["off", 1, 2], [1, "a", 2], ["x", 7]]
         domains["d%d" % i] = list(draw(st.sampled_from(pool)))
         variables.append({"name": nm, "domain": "d%d" % i, "cost": None, "initial": None})
     xd = domains["d0"]
